@@ -126,6 +126,8 @@ type SessionHooks struct {
 	// client-facing and server-facing endpoints and runs as its own party.
 	Middle func(toClient, toServer *kernel.End) error
 	MiddleCaps [2]int
+	// Modules overrides the daemon's module list (fault-planned fs.FS modules).
+	Modules []rsyncd.Module
 }
 
 type lockedBuf struct {
@@ -171,7 +173,7 @@ func guard(name string, panicOut *string, f func() error) func() error {
 // lay.Dst. It runs the scenario's session inside a fresh synctest bubble under
 // the deterministic scheduler and returns what happened.
 func RunSyncSession(t *testing.T, sc *SyncScenario, lay Layout, hooks SessionHooks) (res *SessionResult) {
-	return RunSyncSessionWithModules(t, sc, lay, hooks, nil)
+	return RunSyncSessionWithModules(t, sc, lay, hooks, hooks.Modules)
 }
 
 // RunSyncSessionWithModules is RunSyncSession with an explicit module list for
